@@ -38,7 +38,7 @@ FIELDS = {
     "SwitcherShutter": ("position", "direction"),
 }
 BASE_FIELDS = ("device_type", "device_state", "device_id", "device_key", "ip_address", "mac_address", "name")
-HOWS = ("positional", "keyword", "replace")
+HOWS = ("positional", "keyword", "replace", "subclass")
 
 
 def _args(clsname, dtype):
@@ -55,7 +55,7 @@ def _args(clsname, dtype):
 
 
 def _build(clsname, dtype, how="positional"):
-    """how: positional | keyword (every argument by name) | replace (dataclasses.replace of a valid object)"""
+    """how: positional | keyword (every argument by name) | replace (dataclasses.replace of a valid object) | subclass (an empty subclass, positional)"""
     import dataclasses
 
     from aioswitcher import device as d
@@ -64,6 +64,9 @@ def _build(clsname, dtype, how="positional"):
         own = {"SwitcherPowerPlug": d.DeviceType.POWER_PLUG, "SwitcherWaterHeater": d.DeviceType.V4,
                "SwitcherThermostat": d.DeviceType.BREEZE, "SwitcherShutter": d.DeviceType.RUNNER}[clsname]
         return dataclasses.replace(_build(clsname, own), device_type=dtype)
+    if how == "subclass":
+        # an application's own (empty) subclass of a device class is still that device class
+        return type("My" + clsname, (getattr(d, clsname),), {})(*_args(clsname, dtype))
     if how == "keyword":
         return getattr(d, clsname)(**dict(zip(BASE_FIELDS + FIELDS[clsname], _args(clsname, dtype))))
     return getattr(d, clsname)(*_args(clsname, dtype))
@@ -124,10 +127,10 @@ def check_case(case, res):
         res.outcome((case["cls"], case["type"], raised))
         if want_ok and raised:
             res.violation("class-refuses-own-type", case, f"{case['cls']}({case['type']}) raised {raised}", "accepted", raised)
-        elif want_ok and (obj.device_type is not dtype or type(obj).__name__ != case["cls"]):
+        elif want_ok and (obj.device_type is not dtype or not isinstance(obj, getattr(d, case["cls"]))):
             res.violation("class-mangles-type", case, f"{case['cls']}({case['type']}) holds {obj.device_type}", case["type"], repr(obj.device_type))
         elif not want_ok and raised != "ValueError":
-            res.violation("class-accepts-foreign-type", case, f"{case['cls']}({case['type']}) built {case.get('how', 'positional')}ly in round {case.get('round', 0)} -> {raised or 'accepted'}, expected ValueError", "ValueError", raised or "accepted")
+            res.violation("class-accepts-foreign-type", case, f"{case['cls']}({case['type']}) built ({case.get('how', 'positional')}) in round {case.get('round', 0)} -> {raised or 'accepted'}, expected ValueError", "ValueError", raised or "accepted")
     elif k == "type":
         res.case(("type", case["type"], case.get("round", 0)))
         dtype = getattr(d.DeviceType, case["type"], None)
